@@ -5,12 +5,6 @@ Import ListNotations.
 From Verif Require Import C14.Model C14.Proofs C14.Loops C14.Vis C14.Reach C14.Spec.
 Open Scope Z_scope.
 
-(* a small file system used by the witnesses: <root>/p with a.incn, a/b.incn, c/mod.incn, d.incan,
-   e/__init__.incn, sub/x.incn, sub/a.incn *)
-Definition wfs : fsys :=
-  [File (P [100] 10 Incn); File (P [100; 10] 11 Incn); File (P [100; 12] MODN Incn);
-   File (P [100] 13 Incan); File (P [100; 14] INIT Incn); File (P [100; 20] 21 Incn);
-   File (P [100; 20] 10 Incn)].
 
 (* hypotheses are satisfiable by non-trivial values: `from a import x` in <root>/p resolves to
    a.incn in all three resolvers and none of the classes applies *)
@@ -129,9 +123,6 @@ Print Assumptions C14_collect_terminates.
 
 (* a two-file cycle (a imports b, b imports a, entry = a): the CLI, ModuleResolver and LSP loops end
    silently; only the unused ModuleCollector reports "Circular import detected" *)
-Definition cyc_fs : fsys := [File (P [100] 10 Incn); File (P [100] 11 Incn)].
-Definition cyc_imps : path -> list import :=
-  imps_of [(P [100] 10 Incn, [I KFrom false 0 [11]]); (P [100] 11 Incn, [I KFrom false 0 [10]])].
 Theorem C14_cycle_diagnosed_refuted :
   cli_collect (fuel_of cyc_fs) cyc_fs cyc_imps [] true [100] 10 Incn
     = Done [(P [100] 11 Incn, [11]); (P [100] 10 Incn, [MAIN])] /\
@@ -162,8 +153,7 @@ Theorem C14_unqualified_private_rejected : forall deps own imports uses x,
 Proof. exact unbound_name_rejected. Qed.
 Print Assumptions C14_unqualified_private_rejected.
 
-(*     but: module m = [fn 30 (private); fn 31 (pub)] *)
-Definition vdeps : list (list seg * list decl) := [([10], [D 30 false DFn; D 31 true DFn])].
+(*     but, with [vdeps]: module m = [fn 30 (private); fn 31 (pub)] (Model.v) *)
 (*     `import m::privf` then `privf()` : accepted *)
 Theorem C14_private_rejected_item_import_refuted :
   check_entry vdeps [] [VI (I KModule false 0 [10; 30]) [] None] [UName 30] = [].
@@ -228,10 +218,6 @@ Qed.
 Print Assumptions C14_collect_agree.
 
 (* its hypotheses hold for a three-file flat project with a cycle, and both sides load b and c *)
-Definition flat_fs : fsys := [File (P [100] 10 Incn); File (P [100] 11 Incn); File (P [100] 12 Incn)].
-Definition flat_imps : path -> list import :=
-  imps_of [(P [100] 10 Incn, [I KFrom false 0 [11]]); (P [100] 11 Incn, [I KFrom false 0 [12]; I KFrom false 0 [99]]);
-           (P [100] 12 Incn, [I KFrom false 0 [11]])].
 Example C14_collect_agree_nonvacuous :
   cli_collect (fuel_of flat_fs) flat_fs flat_imps [] true [100] 10 Incn
     = Done [(P [100] 12 Incn, [12]); (P [100] 11 Incn, [11]); (P [100] 10 Incn, [MAIN])] /\
